@@ -11,7 +11,7 @@ from vf import rewrites as R
 from vf import sched
 from vf.common import exc_site, msg_key, short_tb
 from vf.gen import Prog, ReplayRefused
-from vf.util import closure_has_zero, graph_of, tally_ops, tally_prog
+from vf.util import baked_grid_key, closure_has_zero, graph_of, tally_ops, tally_prog
 
 PROPERTY = "C08"
 WORKERS = {"quick": 16, "thorough": 16}
@@ -149,7 +149,7 @@ def check_program(g, v, ctx):
         opt_exc = e
     ctx.count("raise_differentials")
     if raw_exc is None and opt_exc is not None:
-        problems.append(("optimization_raises", f"optimized path raises, un-optimized path computes: {short_tb(opt_exc, 10)}", f"optimization_raises:{type(opt_exc).__name__}:{exc_site(opt_exc)}:{msg_key(opt_exc)}{z}"))
+        problems.append(("optimization_raises", f"optimized path raises, un-optimized path computes: {short_tb(opt_exc, 10)}", baked_grid_key(f"optimization_raises:{type(opt_exc).__name__}:{exc_site(opt_exc)}:{msg_key(opt_exc)}", g.closure(v.id)) + z))
     elif raw_exc is not None and opt_exc is not None:
         ctx.tab("not_computable_both_raise", f"{type(raw_exc).__name__}:{exc_site(raw_exc)}")
     elif raw_exc is not None:
